@@ -254,6 +254,35 @@ func init() {
 	}
 	intrinsics["os.Stat"] = stat
 	intrinsics["os.Lstat"] = stat
+	// os.ReadDir: the entries of a directory of the model, sorted by name, as io/fs dirInfo values
+	intrinsics["os.ReadDir"] = func(fr *frame, args []value) value {
+		i := fr.i
+		p := fsPathArg(args[0])
+		d := i.fs().nodes[p]
+		if d == nil || !d.dir {
+			return tuple{[]value(nil), i.fsErr(fr, "ErrNotExist")}
+		}
+		var names []string
+		for q := range i.fs().nodes {
+			if q != p && path.Dir(q) == p {
+				names = append(names, q)
+			}
+		}
+		sort.Strings(names)
+		fp := i.prog.ImportedPackage("io/fs")
+		if fp == nil {
+			panic(abortPath{why: "io/fs is not loaded", kind: "unsupported"})
+		}
+		dt := fp.Type("dirInfo").Type()
+		var out []value
+		for _, q := range names {
+			r := stat(fr, []value{q}).(tuple)
+			di := zero(dt).(structure)
+			di[0] = r[0]
+			out = append(out, iface{t: dt, v: di})
+		}
+		return tuple{out, nilErr()}
+	}
 	intrinsics["os.ReadFile"] = func(fr *frame, args []value) value {
 		m := fr.i.fs()
 		n := m.nodes[fsPathArg(args[0])]
